@@ -9,6 +9,7 @@ import (
 	clientv3 "go.etcd.io/etcd/client/v3"
 	"google.golang.org/protobuf/proto"
 
+	"github.com/milvus-io/milvus-proto/go-api/v2/commonpb"
 	"github.com/milvus-io/milvus-proto/go-api/v2/schemapb"
 	"github.com/milvus-io/milvus/pkg/util/typeutil"
 
@@ -64,6 +65,12 @@ func (w *Writer) PutCollection(dbID, collID int64, info *pb.CollectionInfo) erro
 func (w *Writer) PutFields(collID int64) error {
 	f, _ := proto.Marshal(&schemapb.FieldSchema{FieldID: 100, Name: "pk", IsPrimaryKey: true, DataType: schemapb.DataType_Int64})
 	if err := w.put(fmt.Sprintf("%s/meta/root-coord/fields/%d/100", w.Root, collID), f); err != nil {
+		return err
+	}
+	// a vector field: the downstream SDK refuses to create a collection without one (client-side schema validation)
+	v, _ := proto.Marshal(&schemapb.FieldSchema{FieldID: 101, Name: "vec", DataType: schemapb.DataType_FloatVector,
+		TypeParams: []*commonpb.KeyValuePair{{Key: "dim", Value: "4"}}})
+	if err := w.put(fmt.Sprintf("%s/meta/root-coord/fields/%d/101", w.Root, collID), v); err != nil {
 		return err
 	}
 	g, _ := proto.Marshal(&schemapb.FieldSchema{FieldID: 1, Name: "Timestamp", DataType: schemapb.DataType_Int64})
